@@ -2,7 +2,7 @@
    refusals before anything is sent, and what every transmission carries (C11). *)
 From RsdnsModel Require Import Base GenConst GenTypes GenHeader GenClient Client Writer RecordSet Timed TimedApi.
 From RsdnsModel.Spec Require Import NameText.
-From RsdnsModel.Proofs Require Import WriterSafe WriterLayout ClientProofs TimedProofs TimedGeneral.
+From RsdnsModel.Proofs Require Import WriterSafe WriterLayout ClientProofs TimedProofs TimedGeneral TimedSame.
 From Coq Require Import ZifyBool ZifyN ZifyNat.
 Open Scope N_scope.
 
@@ -56,4 +56,21 @@ Proof.
       apply existsb_exists in Ee. destruct Ee as (x & Hx & Hx'). destruct x; [discriminate|assumption].
     + intro Hin. destruct (existsb is_tcp_event ev) eqn:Ee; [discriminate|].
       exfalso. assert (existsb is_tcp_event ev = true) by (apply existsb_exists; exists EvTcpExchange; split; [assumption|reflexivity]). congruence.
+Qed.
+
+(* C11 / C15: with exact timers all four clients put the same bytes on the wire at the same instants,
+   start the same exchanges and return the same result at the same instant, in every world *)
+Theorem call_all_clients_same smol smol' q cfg buf arrs srv :
+  qt_pos (cc_qt cfg) -> 0 < cc_lifetime cfg ->
+  client_call_timed true smol q cfg zero_jit zero_jit buf arrs srv =
+  client_call_timed false smol' q cfg zero_jit zero_jit buf arrs srv.
+Proof.
+  intros Hq Hl. unfold client_call_timed.
+  change (std_query_buf_too_short buf) with (async_query_buf_too_short buf).
+  change (std_query_buf_min buf) with (async_query_buf_min buf).
+  destruct (async_query_buf_too_short buf); [reflexivity|].
+  change (prepare_message true (tq_id q) (tq_name q) (tq_type q) (tq_class q) (cc_rd cfg) (cc_edns cfg) buf)
+    with (prepare_message false (tq_id q) (tq_name q) (tq_type q) (tq_class q) (cc_rd cfg) (cc_edns cfg) buf).
+  destruct (prepare_message false (tq_id q) (tq_name q) (tq_type q) (tq_class q) (cc_rd cfg) (cc_edns cfg) buf); try reflexivity.
+  rewrite (all_clients_one_machine smol smol' q (cc_lifetime cfg) (cc_qt cfg) buf (cc_strategy cfg) arrs srv Hq Hl). reflexivity.
 Qed.
